@@ -148,6 +148,9 @@ func cmdRun(args []string) int {
 	fs.Parse(args)
 	SolverName, SolverLogic, QueryTimeoutMs = *solver, *logic, *tmo
 	KeepChecks = *cross > 0
+	if v := os.Getenv("VERIF_SLOW"); v != "" {
+		fmt.Sscanf(v, "%f", &SlowLog)
+	}
 
 	res := &RunResult{Entry: *entry, Pkg: *dir, Status: "ok", Solver: *solver, Logic: *logic, Unroll: *unroll, Flags: flags}
 	code := runEntry(res, *dir, *hdir, *entry, *smtlog, *unroll, *cross, flags)
@@ -165,6 +168,22 @@ func cmdRun(args []string) int {
 			}
 			for _, k := range sortedKeys(res.Stubs) {
 				fmt.Printf("  stub %s x%d\n", k, res.Stubs[k])
+			}
+		}
+		if SlowLog > 0 {
+			type kv struct {
+				k string
+				v [2]float64
+			}
+			var l []kv
+			for k, v := range QStats {
+				l = append(l, kv{k, v})
+			}
+			sort.Slice(l, func(i, j int) bool { return l[i].v[1] > l[j].v[1] })
+			for i, e := range l {
+				if i < 25 {
+					fmt.Printf("  qstat %6.0f queries %7.2fs  %s\n", e.v[0], e.v[1], e.k)
+				}
 			}
 		}
 		for _, f := range res.Findings {
@@ -289,6 +308,9 @@ func runEntry(res *RunResult, dir, hdir, entry, smtlog string, unroll, cross int
 		}
 		g, _, _ := in.callFn(FuncV{fn: fn}, nil, True, st0, 0)
 		finalG = g
+		in.flush(in.batch)
+		in.flush(in.tail)
+		in.batch, in.tail = nil, nil
 		if g.IsFalse() {
 			res.Status = "UNSUPPORTED: no path of the harness returns"
 			return
